@@ -144,9 +144,23 @@ func runOnce(t *testing.T, prop string, p *Plan, faults []simcf.Fault) *runOut {
 			}
 			n0 := len(srv.Log())
 			var results []publish.TargetResult
+			ctx, cancel := context.WithCancel(context.Background())
+			if pub.CancelAt != 0 {
+				if pub.CancelAt < 0 {
+					cancel()
+				}
+				seen := 0
+				srv.OnRequest = func() {
+					if seen++; seen == pub.CancelAt {
+						cancel()
+					}
+				}
+			}
 			panicked, pmsg, psite := core.Guard(func() {
-				results = pubr.PublishECH(context.Background(), targets, pub.Config)
+				results = pubr.PublishECH(ctx, targets, pub.Config)
 			})
+			cancel()
+			srv.OnRequest = nil
 			entries := srv.Log()[n0:]
 			o.attempts = append(o.attempts, len(entries))
 			post := srv.Snapshot()
@@ -163,6 +177,22 @@ func runOnce(t *testing.T, prop string, p *Plan, faults []simcf.Fault) *runOut {
 			if panicked {
 				o.logf("panic %s %s", psite, pmsg)
 				o.fail("panic", psite+": "+digits.ReplaceAllString(pmsg, "N"), "publish #%d: PublishECH panicked: %s", k, pmsg)
+				continue
+			}
+			if pub.CancelAt != 0 {
+				// the caller gave up in the middle: what is left of the statement
+				// is one result per requested record, none of them a success that
+				// did not happen
+				o.probe("caller_context_ended_mid_call")
+				o.sig = append(o.sig, fmt.Sprintf("cancel@%d/%d", pub.CancelAt, len(entries)))
+				if len(results) != len(pub.Targets) {
+					o.fail("result-count", "number of results differs from the number of targets", "publish #%d (context ended at request %d): %d targets, %d results", k, pub.CancelAt, len(pub.Targets), len(results))
+				}
+				for i, r := range results {
+					if statusName(r.Code) == "invalid" {
+						o.fail("result-code", "result with an undefined status code", "publish #%d result %d", k, i)
+					}
+				}
 				continue
 			}
 			judge(o, k, pub, zones, pre, post, entries, results, hurt)
